@@ -368,7 +368,8 @@ pub fn run_c08(out: &mut Out, tier: &str, seed: u64) {
         }
     }
     // f32: sampled here (all 2^32 values is an implementation-only sweep, see `f32all`)
-    let mut f32s: Vec<f32> = vec![0.0, -0.0, 1.0, f32::MAX, f32::MIN_POSITIVE, 1e-45, 0.1, 16777217.0, 3.4028235e38];
+    // the last two are the recorded witnesses of known finding F32 (double rounding through f64)
+    let mut f32s: Vec<f32> = vec![0.0, -0.0, 1.0, f32::MAX, f32::MIN_POSITIVE, 1e-45, 0.1, 16777217.0, 3.4028235e38, f32::from_bits(0x15ae43fd), f32::from_bits(0x95ae43fd)];
     for e in 0..255u32 {
         f32s.push(f32::from_bits(e << 23));
         f32s.push(f32::from_bits((e << 23) | (rng.next() as u32 & ((1 << 23) - 1))));
